@@ -63,6 +63,10 @@ func run(r *vk.Run) {
 		forcedDeleteWindow(r)
 		r.Unguard()
 	}
+	if r.Guard("C08/crash/forced-join-unpublished", "subscriber joining while a membership flip is committed but unpublished") {
+		forcedJoinUnpublished(r)
+		r.Unguard()
+	}
 	if r.Guard("C08/crash/equivalence", "include on a collection with an equivalence") {
 		equivalencePhase(r)
 		r.Unguard()
